@@ -53,6 +53,24 @@ MUT_SETS = [
 ]
 
 
+DIRECTED = [
+    ('(declare-const x Int)\n(declare-const y Int)\n(assert (= x y))\n'
+     '(assert (> (+ x 1) (* x 2)))\n(assert (< x 5))\n(check-sat)\n',
+     {'mode': 'contains', 'markers': ['=', 'y', '*', '5']}, []),
+    ('(declare-const a Int)\n(declare-const b Int)\n'
+     '(assert (let ((z (+ a b))) (> (* z z) (+ z a))))\n(check-sat)\n',
+     {'mode': 'contains', 'markers': ['*', '>', 'a']}, []),
+    ('(declare-const s String)\n(declare-const t String)\n'
+     '(assert (= s "abcdefgh"))\n(assert (str.contains t "xyz"))\n'
+     '(check-sat)\n',
+     {'mode': 'strlit', 'markers': ['=', 'str.contains']},
+     ['--no-smtlib']),
+    ('(declare-const s String)\n(assert (= s "abcdefgh"))\n(check-sat)\n',
+     {'mode': 'strlit', 'markers': ['=', 's']},
+     ['--no-simplify-symbol-names', '--no-simplify-quoted-symbols']),
+]
+
+
 def make_configs(r, n):
     cfgs = corpus.configs(r, n, strategies=('hierarchical', 'hybrid'),
                           jobs=(1, 2, 4), outmodes=((), ))
@@ -66,6 +84,15 @@ def make_configs(r, n):
         opts = opts + ms
         meta['mutopts'] = ms
         out.append((text, spec, opts, meta))
+    # directed histories: an accepted step that inserts one object at several
+    # places (the later copies must still be examined on their own), and a
+    # mutator that only the last pass contains
+    for k, (text, spec, ms) in enumerate(DIRECTED):
+        for st, j in (('hierarchical', 1), ('hybrid', 2)):
+            out.append((text, dict(spec, delay_ms=1),
+                        ['--strategy', st, '-j', str(j)] + ms,
+                        {'strategy': st, 'jobs': j, 'n': f'D{k}{st}',
+                         'mutopts': ms}))
     return out
 
 
